@@ -178,8 +178,8 @@ PROPS.update({
         "the algorithm: Model/Scopes.v models AutomatonBuilder::populate_scopes / compute_scopes and add_pattern's key list; "
         "c09_populate_scopes_ordered_and_covering (on every transition graph, in any processing order, the scopes are prerequisite-first, repetition-free and contain the "
         "keys of the state's constraints) and c09_pattern_keys_ordered_and_covering; the model recomputes scopes (as sets) and recorded key lists (exactly) on every dump "
-        "(case fields scopes / mkeys; strings, matrices, table domain here, port graphs under C01-C06).",
-        "verified structural checker (Coq soundness proof) run on the dump of every real automaton + Coq model of the scope computation compared with every dump", ["c09", "tab09"]),
+        "(case fields scopes / mkeys; strings, matrices, the table domain and port graphs; under the other properties these two fields are information only).",
+        "verified structural checker (Coq soundness proof) run on the dump of every real automaton + Coq model of the scope computation compared with every dump", ["c09", "tab09", "pg09"]),
     "C05": {"subs": ["c05", "pg05", "pgm", "parse"], "level": "proof", "rule": AUT_RULE + "; for C05 each (pattern, host) pair is one case",
         "trusted_base": AUT_TB, "assumptions": AUT_ASSUME, "timeout": 3000,
         "explanation": "Strings and matrices: Theorems c05_{string,matrix}_single_exact / _match_exists_exact / _naive_exact - the modelled SinglePatternMatcher "
